@@ -8,7 +8,7 @@
    be equal up to a one-to-one renaming of the random draws (Rnd, Cek). *)
 From Coq Require Import List NArith Bool.
 Import ListNotations.
-From VF Require Export C11.Model C12.Model.
+From VF Require Export C11.Model C12.Model C12.Rest.
 From VF Require C11.Corr.
 Local Open Scope N_scope.
 
@@ -28,6 +28,10 @@ Definition jN (l : list term) : term := join l.                   (* concatenati
 (* a stored document: id, indexed attributes, n-th distinct ciphertext, and what the configured key decrypts it to *)
 Definition eD (id : term) (idx : list ttag) (n : N) (k v : term) (tags : list ttag) : term :=
   mkdoc id idx (jwe (cfg0 true) n (content k v tags)).
+
+(* REST configuration: the prefix is the store name *)
+Definition dP (t : term) : term := rdet_id (cfg0 true) t.         (* base58(HMAC(store ++ t)[0:16]) *)
+Definition mP (t : term) : term := mac64 (cfg0 true) (pre t).      (* base64url(HMAC(store ++ t)) *)
 
 (* ---------- equality of terms up to a one-to-one renaming of Rnd and Cek ---------- *)
 Record env := { e_rnd : list (N * N); e_cek : list (N * N) }.
@@ -85,8 +89,55 @@ Fixpoint csmatch (x y : list call) (e : env) : option env :=
   | _, _ => None
   end.
 
+(* ---------- requests received by the vault server (REST configuration) ---------- *)
+Definition bbit (b : bool) : N := if b then 1 else 0.
+Definition rcall_sig (x : rcall) : list N :=
+  match x with
+  | HCreate _ => [20]
+  | HUpdate _ _ => [21]
+  | HRead _ => [22]
+  | HDelete _ => [23]
+  | HQuery eqs has fl => 24 :: obit has :: bbit fl :: map (fun sub => len sub) eqs
+  | HBatch ops => 25 :: flat_map (fun o => [bbit (fst (fst o)); obit (snd (fst o)); obit (snd o)]) ops
+  end.
+(* a sub-filter of a query is a JSON object (a Go map): its members are compared as a multiset.  Formatted tag names
+   and values contain no random draws, so plain equality is the right comparison. *)
+Definition ttag_eqb (a b : ttag) : bool := term_eqb (fst a) (fst b) && term_eqb (snd a) (snd b).
+Fixpoint remove_tag (t : ttag) (l : list ttag) : option (list ttag) :=
+  match l with
+  | [] => None
+  | x :: r => if ttag_eqb t x then Some r else match remove_tag t r with Some r' => Some (x :: r') | None => None end
+  end.
+Fixpoint sub_perm (a b : list ttag) : bool :=
+  match a with
+  | [] => match b with [] => true | _ => false end
+  | t :: r => match remove_tag t b with Some b' => sub_perm r b' | None => false end
+  end.
+Fixpoint subs_match (a b : list (list ttag)) : bool :=
+  match a, b with
+  | [], [] => true
+  | x :: r, y :: t => sub_perm x y && subs_match r t
+  | _, _ => false
+  end.
+Definition rcmatch (x y : rcall) (e : env) : option env :=
+  if C11.Corr.list_eqb N.eqb (rcall_sig x) (rcall_sig y) then
+    match x, y with
+    | HQuery eqs has _, HQuery eqs' has' _ =>
+        if subs_match eqs eqs' then lmatch (opt_terms has) (opt_terms has') e else None
+    | _, _ => lmatch (rcall_terms x) (rcall_terms y) e
+    end
+  else None.
+Fixpoint rcsmatch (x y : list rcall) (e : env) : option env :=
+  match x, y with
+  | [], [] => Some e
+  | a :: r, b :: t => andthen (rcmatch a b e) (rcsmatch r t)
+  | _, _ => None
+  end.
+
 (* ---------- a case: configuration, and per operation the observed result and the observed provider calls ---------- *)
-Record case := { c_det : bool; c_steps : list (xop * out * list call) }.
+Inductive case :=
+| FsCase (det : bool) (steps : list (xop * out * list call))                    (* formattedstore over a recording provider *)
+| RestCase (det full batch : bool) (steps : list (rop * out * list rcall)).     (* RESTProvider against the recording vault server *)
 
 Fixpoint check_from (c : fcfg) (s : st) (e : env) (steps : list (xop * out * list call)) : bool :=
   match steps with
@@ -97,7 +148,21 @@ Fixpoint check_from (c : fcfg) (s : st) (e : env) (steps : list (xop * out * lis
       match csmatch m l e with Some e1 => check_from c s1 e1 r | None => false end
   end.
 
-Definition check_case (k : case) : bool := check_from (cfg0 (c_det k)) st0 env0 (c_steps k).
+Fixpoint rcheck_from (rc : rcfg) (s : rst) (e : env) (steps : list (rop * out * list rcall)) : bool :=
+  match steps with
+  | [] => true
+  | (o, x, l) :: r =>
+      let '(s1, y, m) := rstep rc s o in
+      C11.Corr.out_eqb x y &&
+      match rcsmatch m l e with Some e1 => rcheck_from rc s1 e1 r | None => false end
+  end.
+
+Definition check_case (k : case) : bool :=
+  match k with
+  | FsCase det steps => check_from (cfg0 det) st0 env0 steps
+  | RestCase det full batch steps =>
+      rcheck_from {| r_f := cfg0 det; r_full := full; r_batch := batch |} rst0 env0 steps
+  end.
 
 Fixpoint mismatches_from (i : nat) (cs : list case) : list nat :=
   match cs with
